@@ -314,6 +314,15 @@ def _wellformed(rep, fi, blocks, assigns, report=True, via_helper=False):
                         if not (vals and any(derived_from(n, L, assigns) for n in _names_in(vals[0]))):
                             good = False
                             raise_why = "IntegerVariableError is raised without the names of the non-continuous variables"
+                        elif vals:
+                            # the names must arrive as a list: a joined string ("a, b, A[0,1]") cannot be split back --
+                            # matrix element names contain a comma themselves
+                            origin = [vals[0]] + ([v_ for v_ in assigns.get(vals[0].id, []) if isinstance(v_, ast.AST)] if isinstance(vals[0], ast.Name) else [])
+                            joined = [o for o in origin if isinstance(o, ast.Call) and isinstance(o.func, ast.Attribute) and o.func.attr == "join"]
+                            if joined:
+                                rep.ob("R18.1", construct, False,
+                                       f"IntegerVariableError receives the names as one string (`{src(joined[0])[:50]}`): whatever splits it back on the separator breaks the names of matrix elements (`A[0,1]` contains a comma), so strict mode reports variables that do not exist",
+                                       loc=f"{fi.module.rel}:{r_.lineno}", detail="names-as-joined-string", robust=True)
                     raise_ok = good
                 else:
                     good = bool(paths)
